@@ -653,10 +653,21 @@ func main() {
 	if args.Replay != "" {
 		var rp struct {
 			Scenario scenario `json:"scenario"`
+			RT       int      `json:"realtime_listeners"`
 		}
 		if err := hx.LoadReplay(args.Replay, &rp); err != nil {
 			fmt.Println("cannot load replay:", err)
 			os.Exit(2)
+		}
+		if rp.RT > 0 {
+			for try := 0; try < 5; try++ {
+				if open, running := stressBatches(rp.RT); open > 0 || running > 0 {
+					fmt.Printf("REPRODUCED: %d acceptor(s) left open, %d accept loop(s) still running after Shutdown\n", open, running)
+					os.Exit(1)
+				}
+			}
+			fmt.Println("not reproduced in 5 stress runs")
+			return
 		}
 		picks := rp.Scenario.Picks
 		r := run(rp.Scenario, func(step int, en []*sched.Thread, _ *sched.Thread) int {
@@ -677,6 +688,7 @@ func main() {
 		fmt.Println("not reproduced: property holds on this schedule")
 		return
 	}
+	exploreRealtime(meta, hx.Pick3(args.Tier, 200000, 1000000, 400000))
 	var cases []string
 	n := hx.Pick3(args.Tier, 1500, 40000, 20000)
 	for i := 0; i < n; i++ {
